@@ -84,7 +84,7 @@ def setup_world(PART, a: Dict[str, Any]):
     shape = PART["shape"]
     text = " ".join(shape)
     pipe.reset_world(E)
-    used = [t for t in ABS if t in text]
+    used = [t for t in ABS if t in text or (t + "x") in text]
     for t in used:
         comp = {}
         for el in E:
@@ -98,6 +98,9 @@ def setup_world(PART, a: Dict[str, Any]):
         if sum(comp.values()) < 1:
             return False  # a molecule has at least one atom
         W.tok[t] = Tok(comp, qv, True)
+    for al, base in ALIAS.items():
+        if base in W.tok:
+            W.tok[al] = W.tok[base]  # same molecule, other spelling: same composition, charge, validity
     modes = [a["m1"], a["m2"]]
     fgs = [a["f1"], a["f2"]]
     confs = [a["c1"], a["c2"]]
@@ -130,10 +133,13 @@ def merge_in_bounds(PART, a, i):
     return bounded(a[mt + "q"], -1, 1) and tot >= 1
 
 
+ALIAS = {"jx": "j", "qx": "q", "wx": "w"}  # second spellings of the abstract molecules (C14)
+
+
 def _abs_key(reaction_smiles):
     parts = reaction_smiles.split(">>")
-    left = sorted(t for t in parts[0].split(".") if t in ABS)
-    right = sorted(t for t in parts[1].split(".") if t in ABS) if len(parts) > 1 else []
+    left = sorted(ALIAS.get(t, t) for t in parts[0].split(".") if ALIAS.get(t, t) in ABS)
+    right = sorted(ALIAS.get(t, t) for t in parts[1].split(".") if ALIAS.get(t, t) in ABS) if len(parts) > 1 else []
     return (tuple(left), tuple(right))
 
 
@@ -303,10 +309,16 @@ ROW2 = {
 }
 
 
+for _v in ROW2.values():
+    _v.setdefault("f2", 0)
+    _v.setdefault("c2", 4)
+ROW2["rule-based/PCC"] = dict(ROW2["rule-based"], f2=5)  # row 2 additionally rewritten by a reagent template
+
+
 def partitions2(tier, pid):
     """Two rows in one batch; both orders.  Row 1 symbolic, row 2 fixed per outcome class."""
     out = []
-    reps = list(ROW2) if tier == "thorough" else ["input-balanced", "rule-based", "mcs-ok", "mcs-fail"]
+    reps = list(ROW2) if tier == "thorough" else ["input-balanced", "rule-based/PCC", "mcs-ok", "mcs-fail"]
     row1 = []
     if tier == "thorough":
         for m in (0, 3, 4):
